@@ -21,7 +21,8 @@ inductive Loc (α : Type) where
   | d1b (i : Nat) (a : α)          -- `else n_data.load()`
   | d2 (i : Nat) (a : α) (nd : Nat)-- `vals.rcu(|vals| { vals.$idx = Some(data) })`
   | d3 (nd : Nat)                  -- `if n_data == 0`
-  | d4                             -- `call!(sink, Data(vals.load().clone().unwrap()))`
+  | d4                             -- `vals.load().clone().unwrap()`  (the tuple is read in a step of its own, before the call)
+  | d5 (t : List α)                -- `call!(sink, Data(tuple))`
   | e0                             -- `Error(_) | Terminate => let n_end = n_end.fetch_sub(1) - 1; if n_end == 0`
   | e1                             -- `call!(sink, Terminate)`
   | uLoop (j : Nat) (u : Up)       -- from sink: `$( source_talkbacks.$idx.load().expect(..); call!(tb, message) )+`
@@ -46,8 +47,9 @@ def step {α} (n : Nat) (st : St α) : Loc α → Act (St α) (Loc α) (List α)
   | .d2 i a nd => .tau { st with vals := setAt st.vals i (some a) } (.d3 nd)
   | .d3 nd => if nd == 0 then .tau st .d4 else .ret
   | .d4 => match unwrapAll st.vals with
-    | some t => .call (.down 0 (.data t)) st .done
+    | some t => .tau st (.d5 t)
     | none => .panic "called `Option::unwrap()` on a `None` value"
+  | .d5 t => .call (.down 0 (.data t)) st .done
   | .e0 => .tau { st with nEnd := st.nEnd - 1 } (if st.nEnd - 1 == 0 then .e1 else .done)
   | .e1 => .call (.down 0 .term) st .done
   | .uLoop j u =>
